@@ -189,8 +189,31 @@ def fifo_lemma(n):
     return lemma
 
 
+FRAMERS = {'socket': SOCKET, 'rtu': 'pymodbus.framer.rtu_framer.ModbusRtuFramer', 'ascii': 'pymodbus.framer.ascii_framer.ModbusAsciiFramer',
+           'binary': 'pymodbus.framer.binary_framer.ModbusBinaryFramer'}
+
+
+def init_lemma(E):
+    """the real constructor: however the framer is supplied - left out, as a class (what the client factory passes) or as an instance - the
+    protocol ends up with a framer INSTANCE, and replies are matched by transaction id (DictTransactionManager) exactly when that framer
+    carries one (MBAP / socket framer); the other framers, which have no id on the wire, get the arrival-order manager"""
+    how = E.choice('framer_given_as', ['left-out', 'class', 'instance'])
+    kind = E.choice('framer', sorted(FRAMERS))
+    if how == 'left-out':
+        p, kind = E.new(P), 'socket'
+    elif how == 'class':
+        p = E.new(P, E.cls(FRAMERS[kind]))
+    else:
+        p = E.new(P, E.new(FRAMERS[kind], E.new('pymodbus.factory.ClientDecoder')))
+    E.prove('init:the-protocol-holds-a-framer-instance', E.isinstance(p.framer, FRAMERS[kind].split('.')[-1]))
+    want = 'DictTransactionManager' if kind == 'socket' else 'FifoTransactionManager'
+    E.prove('init:replies-are-matched-by-transaction-id-iff-the-framer-carries-one', E.classname(p.transaction) == want)
+    E.prove('init:not-connected-yet', L.Not(L.truth(p._connected)))
+
+
 def get_units():
-    us = [Unit('%s/getNextTID' % PROP, next_tid, [PROP], functions=['pymodbus.transaction.ModbusTransactionManager.getNextTID'])]
+    us = [Unit('%s/getNextTID' % PROP, next_tid, [PROP], functions=['pymodbus.transaction.ModbusTransactionManager.getNextTID']),
+          Unit('%s/init' % PROP, init_lemma, [PROP], functions=[P + '.__init__', DTM + '.__init__', FTM + '.__init__'])]
     for n in (0, 1, 2, 3):
         us.append(Unit('%s/execute.%dpending' % (PROP, n), execute_lemma(n), [PROP], functions=[P + '.execute', P + '._buildResponse', DTM + '.addTransaction']))
         us.append(Unit('%s/reply.%dpending' % (PROP, n), handle_lemma(n), [PROP], functions=[P + '._handleResponse', DTM + '.getTransaction']))
